@@ -3,8 +3,8 @@ CONFIG = dict(
     facts=["DhcpProofs.Facts.V4Codec"],
     streams=[("v4enc", 8000, 240000)],
     oracles=[("c07", 6000, 180000)],
-    full_statement_proved=True,
-    missing="order independence is extensionality in the model (the option map has no order there); that the Go code does not depend on map iteration order is carried by the v4enc stream and oracle c07 (repeated encodings, permuted insertion orders, fresh maps)",
+    full_statement_proved=False,
+    missing="PARTIAL: the layout, ordering, 255-byte and RFC-decodability clauses are theorems for every packet of the domain; order independence is extensionality in the model (the option map has no order there); that the Go code does not depend on map iteration order is carried by the v4enc stream and oracle c07 (repeated encodings, permuted insertion orders through map writes and through UpdateOption/DeleteOption, fresh maps, value slices shared between packets) - i.e. by testing; the exported With* modifiers as a way of building the option set are C15's subject (modifier lists fold to option-map edits: C15_modifiers_last) and are not re-modelled here",
     rule="v4enc: generated packets encoded by (*DHCPv4).ToBytes three times (Go randomises map iteration per range) and by the Lean model; bytes compared. oracle c07: a wire-format validator sharing no code with the library (>=300 bytes, cookie, ascending codes with 82 last, one End, zero padding), an independent RFC decoder recovering the packet, and re-encodings of the same contents inserted in permuted orders with cancelling updates/deletions. non-trivial = at least one option (stream) / two options (oracle); distinct = distinct packets",
     assumptions=["Go nil and empty option values are identified in the model"],
 )
